@@ -390,11 +390,14 @@ func runReplay(args sim.Args, v *sim.Verdict, root string, clk *sim.VClock) {
 		v.Inconclude("cannot read replay file: " + err.Error())
 		return
 	}
-	var rp replay
-	if err := json.Unmarshal(data, &rp); err != nil {
+	var wrap struct {
+		Replay replay `json:"replay"`
+	}
+	if err := json.Unmarshal(data, &wrap); err != nil {
 		v.Inconclude("cannot parse replay file: " + err.Error())
 		return
 	}
+	rp := wrap.Replay
 	r := sim.NewRand(rp.Seed)
 	runCase(rp.Case, args, r, rp.Quota, v, root, clk, &rp)
 }
